@@ -205,7 +205,7 @@ class Engine:
                         return
                     old = keep.pop(0)
                     if _how:
-                        old.close()
+                        getattr(old, "close", lambda: None)()
                     del old
                     out["faults"]["finalise_suspended_inside_read"] = \
                         out["faults"].get(
@@ -245,7 +245,7 @@ class Engine:
                         # garbage-collected) while a later run is under way
                         old = keep.pop(0)
                         if u.get("finalise_how"):
-                            old.close()
+                            getattr(old, "close", lambda: None)()
                         del old
                         out["faults"]["finalise_suspended_midrun"] = \
                             out["faults"].get(
@@ -270,7 +270,7 @@ class Engine:
                     out["faults"]["abandon_suspended"] = \
                         out["faults"].get("abandon_suspended", 0) + 1
                 elif mode == "gen_partial_close":
-                    g.close()
+                    getattr(g, "close", lambda: None)()
                     out["faults"]["abandon_closed"] = \
                         out["faults"].get("abandon_closed", 0) + 1
                 else:
